@@ -267,10 +267,9 @@ def cos1degR : Rat := 99984769515 / 100000000000
 unit normals, opposite within 1°, `dist` identity, witnesses on shapes (`drift` = allowed warm-start drift,
 0 for the closed-form generators), presence and depth of the deepest contact against the exact distance
 and against the observed one-shot `contact`. -/
-def manifoldOracle3 (sh : Sh3 × Sh3) (pos12 : Iso3 Float) (pred : Float) (m : Manifold3 Float)
+def manifoldOracleQ (sh : Sh3 × Sh3) (M : Iso3 Rat) (pred : Float) (m : Manifold3 Float)
     (os : Option (Bool × Float)) (drift : Rat) (exactKnown : Bool) : Option String :=
   if !(finm3 m) then some "nonfinite-output" else
-  let M := qiso3 pos12
   let P := q pred
   let n1 := q3 m.n1; let n2 := q3 m.n2
   let pts := m.points.map qc3
@@ -309,6 +308,10 @@ def manifoldOracle3 (sh : Sh3 × Sh3) (pos12 : Iso3 Float) (pred : Float) (m : M
   | b :: _ => some b
   | [] => presence <|> oneshot
 
+def manifoldOracle3 (sh : Sh3 × Sh3) (pos12 : Iso3 Float) (pred : Float) (m : Manifold3 Float)
+    (os : Option (Bool × Float)) (drift : Rat) (exactKnown : Bool) : Option String :=
+  manifoldOracleQ sh (qiso3 pos12) pred m os drift exactKnown
+
 def seqOracle3 (s : Seq3) (ms : List (Manifold3 Float)) : String :=
   if ms.length != s.poses.length then "fail wrong-number-of-calls" else
   if s.kind > 8 then "skip unknown-kind" else
@@ -327,6 +330,193 @@ def seqOracle3 (s : Seq3) (ms : List (Manifold3 Float)) : String :=
 def pmanlist3 : Nat → P (List (Manifold3 Float))
   | 0 => pure []
   | n+1 => do let m ← poman3; let r ← pmanlist3 n; pure (m :: r)
+
+/-! ### composite shapes: the workspace state machine against the real dispatcher -/
+
+structure Part3 where
+  ty : Nat            -- 0 ball (radius p.x), 1 cuboid (half extents p)
+  p : V3 Float
+  pose : Iso3 Float
+
+structure Box3 where
+  mins : V3 Float
+  maxs : V3 Float
+
+structure CompCase where
+  flipped : Bool
+  parts : List Part3          -- empty for a TriMesh
+  ntris : Nat
+  s2ty : Nat
+  q : V3 Float
+  pred : Float
+  poses : List (Iso3 Float)
+  /-- observed: local AABBs of the parts, then per call the query box and the leaves the traversal visits -/
+  aabbs : List Box3
+  calls : List (Box3 × List Nat)
+
+def ppart3 : P Part3 := do let t ← pnat; let p ← pv3; let m ← piso3; pure ⟨t, p, m⟩
+def pobox : P Box3 := do let a ← pov3; let b ← pov3; pure ⟨a, b⟩
+def pN {α} (p : P α) : Nat → P (List α)
+  | 0 => pure []
+  | n+1 => do let x ← p; let r ← pN p n; pure (x :: r)
+
+def pcomp (tm : Bool) : P CompCase := do
+  let fl ← pbool
+  let (parts, ntris) ← (if tm then do
+      let _ ← plist pv3
+      let nt ← pnat
+      let _ ← pN pnat (3 * nt)
+      pure (([] : List Part3), nt)
+    else do let ps ← plist ppart3; pure (ps, 0))
+  let t2 ← pnat; let q ← pv3; let pr ← pf
+  let poses ← plist piso3
+  let nparts := if tm then ntris else parts.length
+  let obs ← (do
+      let bbs ← pN pobox nparts
+      let calls ← pN (do let b ← pobox; let ls ← plist pnat; pure (b, ls)) poses.length
+      pure (bbs, calls)) <|> pure ([], [])
+  pure ⟨fl, parts, ntris, t2, q, pr, poses, obs.1, obs.2⟩
+
+abbrev WM := WManifold (Nat × Manifold3 Float) (Iso3 Float)
+
+/-- the real narrow phase for the modelled pairs (`contact_manifold_convex_convex` on the part) -/
+def compNarrow (c : CompCase) (P : Iso3 Float) (leaf : Nat) (m : WM) : WM :=
+  match c.parts[leaf]? with
+  | none => m
+  | some part =>
+    let pos12 := if c.flipped then P.inverse else P
+    let g : Manifold3 Float :=
+      if !c.flipped then
+        let sub := part.pose.invMul pos12
+        match part.ty, c.s2ty with
+        | 0, 0 => ballBall3 sub part.p.x c.q.x c.pred m.data.2
+        | 0, _ => convexBallShapes3 (cuboidProject3 c.q) true sub part.p.x c.pred m.data.2
+        | _, _ => convexBallShapes3 (cuboidProject3 part.p) false sub c.q.x c.pred m.data.2
+      else
+        let pos21 := pos12.inverse
+        let sub := pos21.mul part.pose
+        match c.s2ty, part.ty with
+        | 0, 0 => ballBall3 sub c.q.x part.p.x c.pred m.data.2
+        | 0, _ => convexBallShapes3 (cuboidProject3 part.p) true sub c.q.x c.pred m.data.2
+        | _, _ => convexBallShapes3 (cuboidProject3 c.q) false sub part.p.x c.pred m.data.2
+    { m with data := (m.data.1, g) }
+
+def fiso3 (m : Iso3 Float) : String := s!"{ff m.qi} {ff m.qj} {ff m.qk} {ff m.qw} {fv3 m.t}"
+def fopt (o : Option (Iso3 Float)) : String := match o with | some m => s!"1 {fiso3 m}" | none => "0"
+def fwm (m : WM) : String :=
+  s!"{m.subshape1} {m.subshape2} {fopt m.pos1} {fopt m.pos2} {m.data.1} {fman3 m.data.2}"
+
+def retag (k : Nat) (ms : List WM) : List WM :=
+  (List.range ms.length).zipWith (fun i m => { m with data := (1000 * (k + 1) + i + 1, m.data.2) }) ms
+
+def compModel (c : CompCase) : Option String :=
+  let fresh : Nat → WM := freshManifold c.flipped (0, Manifold3.new) (fun l => (c.parts[l]?).map (·.pose))
+  let clr : Nat × Manifold3 Float → Nat × Manifold3 Float := fun d => (d.1, d.2.clear)
+  let rec go (k : Nat) (ws : Workspace) (ms : List WM) : List (Iso3 Float) → List (Box3 × List Nat) → Option (List String)
+    | [], _ => some []
+    | _, [] => none
+    | P :: ps, (_, leaves) :: cs =>
+      match compositeStep (compNarrow c P) clr fresh ws ms leaves with
+      | none => some ["panic"]
+      | some (ws', ms') =>
+        let line := String.intercalate " " (toString ms'.length :: ms'.map fwm)
+        (go (k + 1) ws' (retag k ms') ps cs).map (line :: ·)
+  (go 0 Workspace.new [] c.poses c.calls).map (String.intercalate " ")
+
+/-! #### oracle on the implementation's manifolds of a composite shape -/
+
+structure OutMan where
+  s1 : Nat
+  s2 : Nat
+  pos1 : Option (Iso3 Float)
+  pos2 : Option (Iso3 Float)
+  tag : Nat
+  m : Manifold3 Float
+
+def poiso3 : P (Iso3 Float) := do
+  let i ← pfo; let j ← pfo; let k ← pfo; let w ← pfo; let t ← pov3; pure ⟨i, j, k, w, t⟩
+def poopt : P (Option (Iso3 Float)) := do
+  let t ← tok
+  if t = "1" then do let m ← poiso3; pure (some m) else if t = "0" then pure none else failure
+def poutman : P OutMan := do
+  let a ← pnat; let b ← pnat; let p1 ← poopt; let p2 ← poopt; let t ← pnat; let m ← poman3; pure ⟨a, b, p1, p2, t, m⟩
+def pcalls : Nat → P (List (List OutMan))
+  | 0 => pure []
+  | n+1 => do let ms ← plist poutman; let r ← pcalls n; pure (ms :: r)
+
+def boxIntersects (a b : Box3) : Bool :=
+  let A1 := q3 a.mins; let A2 := q3 a.maxs; let B1 := q3 b.mins; let B2 := q3 b.maxs
+  A1.x ≤ B2.x && B1.x ≤ A2.x && A1.y ≤ B2.y && B1.y ≤ A2.y && A1.z ≤ B2.z && B1.z ≤ A2.z
+
+def sameSet (a b : List Nat) : Bool := a.all (b.contains ·) && b.all (a.contains ·)
+
+def partShape (p : Part3) : Sh3 := if p.ty == 0 then .ball (q p.p.x) else .cuboid (q3 p.p) 0 true
+def otherShape (c : CompCase) : Sh3 := if c.s2ty == 0 then .ball (q c.q.x) else .cuboid (q3 c.q) 0 true
+
+/-- the part id a manifold is labelled with, and whether the label has the right form -/
+def labelOf (c : CompCase) (tm : Bool) (o : OutMan) : Option Nat :=
+  let id := if c.flipped then o.s2 else o.s1
+  let zero := if c.flipped then o.s1 else o.s2
+  let pmine := if c.flipped then o.pos2 else o.pos1
+  let pother := if c.flipped then o.pos1 else o.pos2
+  if zero != 0 || pother.isSome then none else
+  if tm then (if pmine.isNone && id < c.ntris then some id else none)
+  else match c.parts[id]?, pmine with
+    | some part, some m => if fiso3 m == fiso3 part.pose then some id else none
+    | _, _ => none
+
+def compOracle (c : CompCase) (tm : Bool) (outs : List (List OutMan)) : String :=
+  if outs.length != c.poses.length || c.calls.length != c.poses.length then "fail wrong-number-of-calls" else
+  let nparts := c.aabbs.length
+  -- `soft`: the first TriMesh data-continuity failure; reported only if no clause of the property proper fails later
+  let rec go (k : Nat) (prev : List (Nat × Nat)) (soft : Option String) : List (Iso3 Float) → List (Box3 × List Nat) → List (List OutMan) → Option String
+    | [], _, _ => soft
+    | _, [], _ => soft
+    | _, _, [] => soft
+    | P :: ps, (box, leaves) :: cs, ms :: rest =>
+      -- exact overlap set of the part boxes with the prediction-loosened box of the other shape
+      let S := (List.range nparts).filter fun i => match c.aabbs[i]? with | some b => boxIntersects b box | none => false
+      if !(sameSet leaves S) then some s!"call={k} traversal-visits={leaves} exact-overlap-set={S}" else
+      if !leaves.Nodup then some s!"call={k} traversal-visits-a-leaf-twice {leaves}" else
+      let labs := ms.map (labelOf c tm)
+      if labs.any (·.isNone) then some s!"call={k} malformed-label" else
+      let ids := labs.filterMap id
+      if !ids.Nodup then some s!"call={k} two-manifolds-for-one-part {ids}" else
+      let missing := S.filter (fun i => !ids.contains i)
+      if !missing.isEmpty then some s!"call={k} no-manifold-for-overlapping-part {missing}" else
+      -- Compound: exactly the overlap set. TriMesh: the cached enlarged box may keep extra (empty) manifolds.
+      let extra := ids.filter (fun i => !S.contains i)
+      if !tm && !extra.isEmpty then some s!"call={k} manifold-for-non-overlapping-part {extra}" else
+      let extraNonEmpty := (ms.zip ids).filter (fun (o, i) => !S.contains i && !o.m.points.isEmpty)
+      if !extraNonEmpty.isEmpty then some s!"call={k} contacts-on-non-overlapping-part" else
+      -- user data follows the part: previous tag if the part had a manifold in the previous call, else default
+      let badTag := (ms.zip ids).filter fun (o, i) =>
+        match prev.find? (·.1 == i) with
+        | some (_, t) => o.tag != t
+        | none => o.tag != 0
+      if !tm && !badTag.isEmpty then some s!"call={k} manifold-data-not-following-its-part" else
+      let soft := soft <|> (if tm && !badTag.isEmpty then
+        some s!"trimesh-manifold-data-dropped call={k} triangles={badTag.map (·.2)} (present in the previous call, restarted from ContactManifold::new)" else none)
+      -- geometric clauses on every manifold of a modelled pair
+      let geo : Option String := if tm then none else
+        (ms.zip ids).findSome? fun (o, i) =>
+          match c.parts[i]? with
+          | none => none
+          | some part =>
+            let Pq := qiso3 P
+            -- exact relative pose is evaluated inside `manifoldOracle3` from a Float isometry; build it in Rat instead
+            let sub : Iso3 Rat := if !c.flipped then (qiso3 part.pose).invMul Pq else Pq.mul (qiso3 part.pose)
+            let sh : Sh3 × Sh3 := if !c.flipped then (partShape part, otherShape c) else (otherShape c, partShape part)
+            let known := !(part.ty == 1 && c.s2ty == 1)
+            (manifoldOracleQ sh sub c.pred o.m none 0 known).map fun r => s!"call={k} part={i} {r}"
+      match geo with
+      | some r => some r
+      | none =>
+        let tags := (List.range ms.length).zipWith (fun j i => (i, 1000 * (k + 1) + j + 1)) ids
+        go (k + 1) tags soft ps cs rest
+  match go 0 [] none c.poses c.calls outs with
+  | some r => s!"fail {r}"
+  | none => "pass"
 
 def handler (fn : String) : Option Handler :=
   match fn with
@@ -382,6 +572,16 @@ def handler (fn : String) : Option Handler :=
       model := fun a => run (do let s ← pseq3; pure (seqModel3 s)) a
       oracle := fun a o => match run pseq3 a with
         | some s => withOut (pmanlist3 s.poses.length) o (seqOracle3 s)
+        | none => "skip bad-args" }
+  | "comp3" => some {
+      model := fun a => match run (pcomp false) a with | some c => compModel c | none => none
+      oracle := fun a o => match run (pcomp false) a with
+        | some c => withOut (pcalls c.poses.length) o (compOracle c false)
+        | none => "skip bad-args" }
+  | "tm3" => some {
+      model := fun _ => some "oracle-only"
+      oracle := fun a o => match run (pcomp true) a with
+        | some c => withOut (pcalls c.poses.length) o (compOracle c true)
         | none => "skip bad-args" }
   | _ => none
 
